@@ -26,10 +26,10 @@ void X___cxa_throw(void *obj, void *tinfo, void *dtor) { (void)dtor; vf_eh_obj =
 void *X___cxa_begin_catch(void *p) { return p; }
 void X___cxa_end_catch(void) { }
 void X___cxa_rethrow(void) { vf_eh_pending = 1; }
-int32_t X___cxa_guard_acquire(void *g) { return *(uint8_t *)g == 0; }
+uint32_t X___cxa_guard_acquire(void *g) { return *(uint8_t *)g == 0; }
 void X___cxa_guard_release(void *g) { *(uint8_t *)g = 1; }
 void X___cxa_guard_abort(void *g) { (void)g; }
-int32_t X___cxa_atexit(void *f, void *a, void *d) { (void)f; (void)a; (void)d; return 0; }
+uint32_t X___cxa_atexit(void *f, void *a, void *d) { (void)f; (void)a; (void)d; return 0; }
 void X___cxa_pure_virtual(void) { VF_ASSERT(0, "pure virtual function called"); VF_STOP(); }
 void X__ZSt9terminatev(void) { vf_terminated = 1; VF_ASSERT(0, "std::terminate called"); VF_STOP(); }
 void X_abort(void) { vf_terminated = 1; VF_ASSERT(0, "abort called"); VF_STOP(); }
@@ -52,25 +52,25 @@ void X__ZSt27__throw_bad_optional_accessv(void) { vf_throw_std(&G__ZTISt19bad_op
 
 /* ---------------------------------------------------------------- libc leaf functions */
 uint64_t X_strlen(void *s) { const uint8_t *p = (const uint8_t *)s; uint64_t n = 0; while (p[n]) n++; return n; }
-int32_t X_memcmp(void *a, void *b, uint64_t n)
+uint32_t X_memcmp(void *a, void *b, uint64_t n)
 {
   const uint8_t *x = (const uint8_t *)a, *y = (const uint8_t *)b;
-  for (uint64_t i = 0; i < n; ++i) if (x[i] != y[i]) return x[i] < y[i] ? -1 : 1;
+  for (uint64_t i = 0; i < n; ++i) if (x[i] != y[i]) return x[i] < y[i] ? (uint32_t)-1 : 1u;
   return 0;
 }
-int32_t X_bcmp(void *a, void *b, uint64_t n) { return X_memcmp(a, b, n); }
-void *X_memchr(void *s, int32_t c, uint64_t n)
+uint32_t X_bcmp(void *a, void *b, uint64_t n) { return X_memcmp(a, b, n); }
+void *X_memchr(void *s, uint32_t c, uint64_t n)
 {
   uint8_t *p = (uint8_t *)s;
   for (uint64_t i = 0; i < n; ++i) if (p[i] == (uint8_t)c) return p + i;
   return 0;
 }
 /* "C" locale character classes */
-int32_t X_isgraph(int32_t c) { return c > 0x20 && c < 0x7F; }
-int32_t X_isdigit(int32_t c) { return c >= '0' && c <= '9'; }
-int32_t X_isupper(int32_t c) { return c >= 'A' && c <= 'Z'; }
-int32_t X_toupper(int32_t c) { return (c >= 'a' && c <= 'z') ? c - 32 : c; }
-int32_t X_tolower(int32_t c) { return (c >= 'A' && c <= 'Z') ? c + 32 : c; }
+uint32_t X_isgraph(uint32_t c) { return c > 0x20 && c < 0x7F; }
+uint32_t X_isdigit(uint32_t c) { return c >= '0' && c <= '9'; }
+uint32_t X_isupper(uint32_t c) { return c >= 'A' && c <= 'Z'; }
+uint32_t X_toupper(uint32_t c) { return (c >= 'a' && c <= 'z') ? c - 32 : c; }
+uint32_t X_tolower(uint32_t c) { return (c >= 'A' && c <= 'Z') ? c + 32 : c; }
 #ifdef VF_HAVE_LS_s_i64_i64_e
 struct LS_s_i64_i64_e X_ldiv(uint64_t a, uint64_t b)
 {
@@ -196,12 +196,12 @@ void X__ZNSt7__cxx1112basic_stringIcSt11char_traitsIcESaIcEE6resizeEmc(void *s, 
   if (len < n) X__ZNSt7__cxx1112basic_stringIcSt11char_traitsIcESaIcEE14_M_replace_auxEmmmc(s, len, 0, n - len, c);
   else if (n < len) str_set_length(s, n);
 }
-int32_t X__ZNKSt7__cxx1112basic_stringIcSt11char_traitsIcESaIcEE7compareEPKc(void *s, void *c)
+uint32_t X__ZNKSt7__cxx1112basic_stringIcSt11char_traitsIcESaIcEE7compareEPKc(void *s, void *c)
 {
   uint64_t size = STR_LEN(s), osize = X_strlen(c), len = size < osize ? size : osize;
-  int32_t r = X_memcmp(STR_P(s), c, len);
+  int32_t r = (int32_t)X_memcmp(STR_P(s), c, len);
   if (!r) { int64_t d = (int64_t)(size - osize); r = d > 2147483647 ? 2147483647 : d < -2147483647 - 1 ? -2147483647 - 1 : (int32_t)d; }
-  return r;
+  return (uint32_t)r;
 }
 uint64_t X__ZNKSt7__cxx1112basic_stringIcSt11char_traitsIcESaIcEE16find_last_not_ofEPKcmm(void *s, void *set, uint64_t pos, uint64_t n)
 {
@@ -238,3 +238,14 @@ void X__ZNSt7__cxx1112basic_stringIcSt11char_traitsIcESaIcEEC2IS3_EEPKcRKS3_(voi
   (void)lit; (void)alloc;
   STR_P(s) = STR_LOCAL(s); STR_LEN(s) = 0; STR_LOCAL(s)[0] = 0;
 }
+
+/* ---------------------------------------------------------------- glibc ctype tables, "C" locale (generated from the running glibc at authoring time) */
+static const uint16_t vf_ctype_b[384] = {0,0,0,0,0,0,0,0,0,0,0,0,0,0,0,0,0,0,0,0,0,0,0,0,0,0,0,0,0,0,0,0,0,0,0,0,0,0,0,0,0,0,0,0,0,0,0,0,0,0,0,0,0,0,0,0,0,0,0,0,0,0,0,0,0,0,0,0,0,0,0,0,0,0,0,0,0,0,0,0,0,0,0,0,0,0,0,0,0,0,0,0,0,0,0,0,0,0,0,0,0,0,0,0,0,0,0,0,0,0,0,0,0,0,0,0,0,0,0,0,0,0,0,0,0,0,0,0,2,2,2,2,2,2,2,2,2,8195,8194,8194,8194,8194,2,2,2,2,2,2,2,2,2,2,2,2,2,2,2,2,2,2,24577,49156,49156,49156,49156,49156,49156,49156,49156,49156,49156,49156,49156,49156,49156,49156,55304,55304,55304,55304,55304,55304,55304,55304,55304,55304,49156,49156,49156,49156,49156,49156,49156,54536,54536,54536,54536,54536,54536,50440,50440,50440,50440,50440,50440,50440,50440,50440,50440,50440,50440,50440,50440,50440,50440,50440,50440,50440,50440,49156,49156,49156,49156,49156,49156,54792,54792,54792,54792,54792,54792,50696,50696,50696,50696,50696,50696,50696,50696,50696,50696,50696,50696,50696,50696,50696,50696,50696,50696,50696,50696,49156,49156,49156,49156,2,0,0,0,0,0,0,0,0,0,0,0,0,0,0,0,0,0,0,0,0,0,0,0,0,0,0,0,0,0,0,0,0,0,0,0,0,0,0,0,0,0,0,0,0,0,0,0,0,0,0,0,0,0,0,0,0,0,0,0,0,0,0,0,0,0,0,0,0,0,0,0,0,0,0,0,0,0,0,0,0,0,0,0,0,0,0,0,0,0,0,0,0,0,0,0,0,0,0,0,0,0,0,0,0,0,0,0,0,0,0,0,0,0,0,0,0,0,0,0,0,0,0,0,0,0,0,0,0,};
+static const int32_t vf_ctype_lo[384] = {128,129,130,131,132,133,134,135,136,137,138,139,140,141,142,143,144,145,146,147,148,149,150,151,152,153,154,155,156,157,158,159,160,161,162,163,164,165,166,167,168,169,170,171,172,173,174,175,176,177,178,179,180,181,182,183,184,185,186,187,188,189,190,191,192,193,194,195,196,197,198,199,200,201,202,203,204,205,206,207,208,209,210,211,212,213,214,215,216,217,218,219,220,221,222,223,224,225,226,227,228,229,230,231,232,233,234,235,236,237,238,239,240,241,242,243,244,245,246,247,248,249,250,251,252,253,254,-1,0,1,2,3,4,5,6,7,8,9,10,11,12,13,14,15,16,17,18,19,20,21,22,23,24,25,26,27,28,29,30,31,32,33,34,35,36,37,38,39,40,41,42,43,44,45,46,47,48,49,50,51,52,53,54,55,56,57,58,59,60,61,62,63,64,97,98,99,100,101,102,103,104,105,106,107,108,109,110,111,112,113,114,115,116,117,118,119,120,121,122,91,92,93,94,95,96,97,98,99,100,101,102,103,104,105,106,107,108,109,110,111,112,113,114,115,116,117,118,119,120,121,122,123,124,125,126,127,128,129,130,131,132,133,134,135,136,137,138,139,140,141,142,143,144,145,146,147,148,149,150,151,152,153,154,155,156,157,158,159,160,161,162,163,164,165,166,167,168,169,170,171,172,173,174,175,176,177,178,179,180,181,182,183,184,185,186,187,188,189,190,191,192,193,194,195,196,197,198,199,200,201,202,203,204,205,206,207,208,209,210,211,212,213,214,215,216,217,218,219,220,221,222,223,224,225,226,227,228,229,230,231,232,233,234,235,236,237,238,239,240,241,242,243,244,245,246,247,248,249,250,251,252,253,254,255,};
+static const int32_t vf_ctype_up[384] = {128,129,130,131,132,133,134,135,136,137,138,139,140,141,142,143,144,145,146,147,148,149,150,151,152,153,154,155,156,157,158,159,160,161,162,163,164,165,166,167,168,169,170,171,172,173,174,175,176,177,178,179,180,181,182,183,184,185,186,187,188,189,190,191,192,193,194,195,196,197,198,199,200,201,202,203,204,205,206,207,208,209,210,211,212,213,214,215,216,217,218,219,220,221,222,223,224,225,226,227,228,229,230,231,232,233,234,235,236,237,238,239,240,241,242,243,244,245,246,247,248,249,250,251,252,253,254,-1,0,1,2,3,4,5,6,7,8,9,10,11,12,13,14,15,16,17,18,19,20,21,22,23,24,25,26,27,28,29,30,31,32,33,34,35,36,37,38,39,40,41,42,43,44,45,46,47,48,49,50,51,52,53,54,55,56,57,58,59,60,61,62,63,64,65,66,67,68,69,70,71,72,73,74,75,76,77,78,79,80,81,82,83,84,85,86,87,88,89,90,91,92,93,94,95,96,65,66,67,68,69,70,71,72,73,74,75,76,77,78,79,80,81,82,83,84,85,86,87,88,89,90,123,124,125,126,127,128,129,130,131,132,133,134,135,136,137,138,139,140,141,142,143,144,145,146,147,148,149,150,151,152,153,154,155,156,157,158,159,160,161,162,163,164,165,166,167,168,169,170,171,172,173,174,175,176,177,178,179,180,181,182,183,184,185,186,187,188,189,190,191,192,193,194,195,196,197,198,199,200,201,202,203,204,205,206,207,208,209,210,211,212,213,214,215,216,217,218,219,220,221,222,223,224,225,226,227,228,229,230,231,232,233,234,235,236,237,238,239,240,241,242,243,244,245,246,247,248,249,250,251,252,253,254,255,};
+static const uint16_t *vf_ctype_b_ptr = vf_ctype_b + 128;
+static const int32_t *vf_ctype_lo_ptr = vf_ctype_lo + 128;
+static const int32_t *vf_ctype_up_ptr = vf_ctype_up + 128;
+void *X___ctype_b_loc(void) { return (void *)&vf_ctype_b_ptr; }
+void *X___ctype_tolower_loc(void) { return (void *)&vf_ctype_lo_ptr; }
+void *X___ctype_toupper_loc(void) { return (void *)&vf_ctype_up_ptr; }
